@@ -43,18 +43,19 @@ theorem prefix_append_single {α : Type} (l : List α) (a : α) : l <+: l ++ [a]
 
 /-- a new cell on both sides -/
 theorem WRel.alloc {env : Env} {η : Hp} {w : World} {gw : GWorld} (hw : WRel env η w gw) {v : Val} {gv : GVal} {e : Ty}
-    (hv : HasTy env η v e) (hg : toGV env η v = some gv) :
-    η.le ⟨η.tys ++ [e], η.locs ++ [gw.heap.size], η.fns⟩ ∧
-    WRel env ⟨η.tys ++ [e], η.locs ++ [gw.heap.size], η.fns⟩ { w with store := w.store.push v }
+    (hv : HasTy env η v e) (hg : VRel env η v e gv) :
+    η.le ⟨η.tys ++ [e], η.locs ++ [gw.heap.size], η.fns, η.imm⟩ ∧
+    WRel env ⟨η.tys ++ [e], η.locs ++ [gw.heap.size], η.fns, η.imm⟩ { w with store := w.store.push v }
       { gw with heap := gw.heap.push (refCell e gv) } ∧
-    toGV env ⟨η.tys ++ [e], η.locs ++ [gw.heap.size], η.fns⟩ (.ref w.store.size) = some (.ptr gw.heap.size) ∧
-    HasTy env ⟨η.tys ++ [e], η.locs ++ [gw.heap.size], η.fns⟩ (.ref w.store.size) (.ref e) := by
-  have hle : η.le ⟨η.tys ++ [e], η.locs ++ [gw.heap.size], η.fns⟩ := ⟨prefix_append_single _ _, prefix_append_single _ _, rfl⟩
+    VRel env ⟨η.tys ++ [e], η.locs ++ [gw.heap.size], η.fns, η.imm⟩ (.ref w.store.size) (.ref e) (.ptr gw.heap.size) ∧
+    HasTy env ⟨η.tys ++ [e], η.locs ++ [gw.heap.size], η.fns, η.imm⟩ (.ref w.store.size) (.ref e) := by
+  have hle : η.le ⟨η.tys ++ [e], η.locs ++ [gw.heap.size], η.fns, η.imm⟩ :=
+    ⟨prefix_append_single _ _, prefix_append_single _ _, rfl, fun _ h => h⟩
   have hT : (η.tys ++ [e])[w.store.size]? = some e := by
     rw [← hw.lenT]; simp
   have hL : (η.locs ++ [gw.heap.size])[w.store.size]? = some gw.heap.size := by
     rw [← hw.lenL]; simp
-  refine ⟨hle, ⟨hw.out, hw.externs, by simp [hw.lenT], by simp [hw.lenL], ?_, ?_, ?_⟩, by simp [toGV, hL], by simp [HasTy, hT]⟩
+  refine ⟨hle, ⟨hw.out, hw.externs, by simp [hw.lenT], by simp [hw.lenL], ?_, ?_, ?_, ?_, hw.cap⟩, by simp [VRel, hL], by simp [HasTy, hT]⟩
   · rw [List.nodup_append]
     refine ⟨hw.inj, by simp, fun a ha b hb => ?_⟩
     simp only [List.mem_singleton] at hb; subst hb
@@ -70,19 +71,58 @@ theorem WRel.alloc {env : Env} {η : Hp} {w : World} {gw : GWorld} (hw : WRel en
     by_cases hls : l = w.store.size
     · subst hls
       simp only [if_true, Option.some.injEq] at hl; subst hl
-      refine ⟨e, gw.heap.size, gv, hT, hL, HasTy_mono hle _ _ hv, toGV_mono hle _ _ hg, ?_⟩
+      refine ⟨e, gw.heap.size, gv, hT, hL, HasTy_mono hle _ _ hv, VRel_mono hle _ _ _ hg, ?_⟩
       simp
     · simp only [hls, if_false] at hl
       obtain ⟨e', gl, gv', h1, h2, h3, h4, h5⟩ := hw.cells l v' hl
-      refine ⟨e', gl, gv', prefix_get hle.1 h1, prefix_get hle.2.1 h2, HasTy_mono hle _ _ h3, toGV_mono hle _ _ h4, ?_⟩
+      refine ⟨e', gl, gv', prefix_get hle.1 h1, prefix_get hle.2.1 h2, HasTy_mono hle _ _ h3, VRel_mono hle _ _ _ h4, ?_⟩
       have hb : gl < gw.heap.size := hw.bound gl (List.mem_of_getElem? h2)
       simp only [Array.getElem?_push]
       rw [if_neg (by omega)]; exact h5
+  · intro loc c hm
+    obtain ⟨h1, h2⟩ := hw.imm loc c hm
+    have hlt : loc < gw.heap.size := by
+      rcases Nat.lt_or_ge loc gw.heap.size with h | h
+      · exact h
+      · rw [Array.getElem?_eq_none h] at h1; cases h1
+    refine ⟨by simp only [Array.getElem?_push]; rw [if_neg (by omega)]; exact h1, fun hmem => ?_⟩
+    simp only [List.mem_append, List.mem_singleton] at hmem
+    rcases hmem with hmem | hmem
+    · exact h2 hmem
+    · omega
+
+/-- a new immutable cell on the Go side only (the backing array of a slice) -/
+theorem WRel.allocImm {env : Env} {η : Hp} {w : World} {gw : GWorld} (hw : WRel env η w gw) (c : GVal) :
+    η.le ⟨η.tys, η.locs, η.fns, η.imm ++ [(gw.heap.size, c)]⟩ ∧
+    WRel env ⟨η.tys, η.locs, η.fns, η.imm ++ [(gw.heap.size, c)]⟩ w { gw with heap := gw.heap.push c } := by
+  have hle : η.le ⟨η.tys, η.locs, η.fns, η.imm ++ [(gw.heap.size, c)]⟩ :=
+    ⟨List.prefix_refl _, List.prefix_refl _, rfl, fun _ h => List.mem_append_left _ h⟩
+  refine ⟨hle, ⟨hw.out, hw.externs, hw.lenT, hw.lenL, hw.inj, ?_, ?_, ?_, hw.cap⟩⟩
+  · intro gl hgl
+    simp only [Array.size_push]
+    have := hw.bound gl hgl; omega
+  · intro l v' hl
+    obtain ⟨e', gl, gv', h1, h2, h3, h4, h5⟩ := hw.cells l v' hl
+    refine ⟨e', gl, gv', h1, h2, HasTy_mono hle _ _ h3, VRel_mono hle _ _ _ h4, ?_⟩
+    have hb : gl < gw.heap.size := hw.bound gl (List.mem_of_getElem? h2)
+    simp only [Array.getElem?_push]
+    rw [if_neg (by omega)]; exact h5
+  · intro loc c' hm
+    simp only [List.mem_append, List.mem_singleton, Prod.mk.injEq] at hm
+    rcases hm with hm | ⟨rfl, rfl⟩
+    · obtain ⟨h1, h2⟩ := hw.imm loc c' hm
+      have hlt : loc < gw.heap.size := by
+        rcases Nat.lt_or_ge loc gw.heap.size with h | h
+        · exact h
+        · rw [Array.getElem?_eq_none h] at h1; cases h1
+      exact ⟨by simp only [Array.getElem?_push]; rw [if_neg (by omega)]; exact h1, h2⟩
+    · refine ⟨by simp, fun hmem => ?_⟩
+      have := hw.bound _ hmem; omega
 
 /-- reading a cell -/
 theorem WRel.get {env : Env} {η : Hp} {w : World} {gw : GWorld} (hw : WRel env η w gw) {l : Nat} {e : Ty}
     (hl : HasTy env η (.ref l) (.ref e)) :
-    ∃ v gl gv, w.store[l]? = some v ∧ η.locs[l]? = some gl ∧ HasTy env η v e ∧ toGV env η v = some gv ∧
+    ∃ v gl gv, w.store[l]? = some v ∧ η.locs[l]? = some gl ∧ HasTy env η v e ∧ VRel env η v e gv ∧
       gw.heap[gl]? = some (refCell e gv) := by
   simp only [HasTy] at hl
   have hlt : l < w.store.size := by
@@ -97,7 +137,7 @@ theorem WRel.get {env : Env} {η : Hp} {w : World} {gw : GWorld} (hw : WRel env 
 
 /-- writing a cell -/
 theorem WRel.set {env : Env} {η : Hp} {w : World} {gw : GWorld} (hw : WRel env η w gw) {l : Nat} {e : Ty}
-    (hl : HasTy env η (.ref l) (.ref e)) {v : Val} {gv : GVal} (hv : HasTy env η v e) (hg : toGV env η v = some gv) :
+    (hl : HasTy env η (.ref l) (.ref e)) {v : Val} {gv : GVal} (hv : HasTy env η v e) (hg : VRel env η v e gv) :
     ∃ gl, η.locs[l]? = some gl ∧ l < w.store.size ∧ (∃ old, gw.heap[gl]? = some (refCell e old)) ∧
       WRel env η { w with store := w.store.set! l v } { gw with heap := gw.heap.set! gl (refCell e gv) } := by
   obtain ⟨v0, gl, gv0, hs0, hloc, _, _, hc0⟩ := hw.get hl
@@ -107,7 +147,7 @@ theorem WRel.set {env : Env} {η : Hp} {w : World} {gw : GWorld} (hw : WRel env 
     · rw [Array.getElem?_eq_none h] at hs0; cases hs0
   have hT : η.tys[l]? = some e := by simpa [HasTy] using hl
   have hglb : gl < gw.heap.size := hw.bound gl (List.mem_of_getElem? hloc)
-  refine ⟨gl, hloc, hlt, ⟨gv0, hc0⟩, ⟨hw.out, hw.externs, by simp [hw.lenT], by simp [hw.lenL], hw.inj, ?_, ?_⟩⟩
+  refine ⟨gl, hloc, hlt, ⟨gv0, hc0⟩, ⟨hw.out, hw.externs, by simp [hw.lenT], by simp [hw.lenL], hw.inj, ?_, ?_, ?_, hw.cap⟩⟩
   · intro g hgm; simp only [Array.set!_eq_setIfInBounds, Array.size_setIfInBounds]; exact hw.bound g hgm
   · intro l' v' hl'
     simp only [Array.set!_eq_setIfInBounds, Array.getElem?_setIfInBounds] at hl'
@@ -125,6 +165,12 @@ theorem WRel.set {env : Env} {η : Hp} {w : World} {gw : GWorld} (hw : WRel env 
         exact hll ((List.getElem?_inj hlen hw.inj).mp (by rw [hloc, h2]))
       simp only [Array.set!_eq_setIfInBounds, Array.getElem?_setIfInBounds, hne, if_false]
       exact h5
+  · intro loc c hm
+    obtain ⟨h1, h2⟩ := hw.imm loc c hm
+    have hne : gl ≠ loc := fun heq => h2 (heq ▸ List.mem_of_getElem? hloc)
+    refine ⟨?_, h2⟩
+    simp only [Array.set!_eq_setIfInBounds, Array.getElem?_setIfInBounds, hne, if_false]
+    exact h1
 
 /-! ### the three helpers of `make_ref_runtime` -/
 
